@@ -18,10 +18,14 @@ pub struct C13r;
 
 /// ECU1: 20 messages 5 s apart (its lifecycle is confirmed after 60 s and keeps growing afterwards);
 /// ECU2: 3 messages at the end (its lifecycle is still buffered when the stream ends)
-fn gen_log() -> (Vec<u8>, BTreeMap<String, u32>) {
+fn gen_log() -> (Vec<u8>, BTreeMap<String, u32>, Vec<u64>) {
     let mut bytes = vec![];
     let mut counts: BTreeMap<String, u32> = BTreeMap::new();
+    let mut ecu2_idx: Vec<u64> = vec![];
     let mut push = |ecu: &[u8; 4], t_s: u32, i: u32| {
+        if ecu == b"ECU2" {
+            ecu2_idx.push(i as u64);
+        }
         let spec = MsgSpec {
             framing: Framing::Storage,
             htyp: VERS1 | UEH | WEID | WTMS,
@@ -50,7 +54,7 @@ fn gen_log() -> (Vec<u8>, BTreeMap<String, u32>) {
             i += 1;
         }
     }
-    (bytes, counts)
+    (bytes, counts, ecu2_idx)
 }
 
 #[derive(Clone, Debug)]
@@ -67,7 +71,13 @@ fn scen_json(s: &Scen) -> Value {
 /// latest lifecycle info per id as the client saw it: id -> (ecu, nr_msgs)
 type View = BTreeMap<u64, (String, u64)>;
 
-fn run(d: &mut Driver, file: &str, s: &Scen) -> Result<(View, Vec<(String, String, String)>), DriverErr> {
+/// what the client saw: the lifecycle table, and the message indices delivered under the id of the filtered stream
+type Seen = (View, Vec<u64>);
+const STREAM: &str = r#"C stream {"window":[1,3],"binary":true,"filters":[{"type":0,"ecu":"ECU2"}]}"#;
+
+fn run(d: &mut Driver, file: &str, s: &Scen) -> Result<(Seen, Vec<(String, String, String)>), DriverErr> {
+    let sgot: std::cell::RefCell<Vec<u64>> = Default::default();
+    let sid: std::cell::Cell<Option<u64>> = Default::default();
     let mut viol = vec![];
     let mut view: View = BTreeMap::new();
     let mut step = |d: &mut Driver, l: &str, view: &mut View, viol: &mut Vec<(String, String, String)>| -> Result<Value, DriverErr> {
@@ -75,6 +85,15 @@ fn run(d: &mut Driver, file: &str, s: &Scen) -> Result<(View, Vec<(String, Strin
         if let Some(p) = r["panic"].as_str() {
             let (loc, msg) = p.split_once('|').unwrap_or((p, ""));
             viol.push(("panic".into(), loc.to_string(), format!("'{l}': {msg}")));
+        }
+        for (id, m) in crate::c16::collect_frames(r["frames"].as_array().map(|a| a.as_slice()).unwrap_or(&[])) {
+            if Some(id) == sid.get() {
+                if let Some(i) = m["index"].as_u64() {
+                    sgot.borrow_mut().push(i);
+                }
+            } else {
+                viol.push(("frame_for_unknown_stream".into(), "".into(), format!("'{l}': data frame for id {id}, the only stream has id {:?}", sid.get())));
+            }
         }
         for f in r["frames"].as_array().cloned().unwrap_or_default() {
             if f["b"] == "Lifecycles" {
@@ -92,6 +111,13 @@ fn run(d: &mut Driver, file: &str, s: &Scen) -> Result<(View, Vec<(String, Strin
     }
     let open = if s.sorted { format!(r#"C open {{"files":["{file}"],"sort":true}}"#) } else { format!(r#"C open {{"files":["{file}"]}}"#) };
     step(d, &open, &mut view, &mut viol)?;
+    // a filtered stream whose window starts behind the first match: its first matches arrive late in the file
+    let r = step(d, STREAM, &mut view, &mut viol)?;
+    let reply = r["frames"][0]["t"].as_str().unwrap_or("").to_string();
+    sid.set(reply.split("\"id\":").nth(1).and_then(|x| x.trim_start().chars().take_while(|c| c.is_ascii_digit()).collect::<String>().parse().ok()));
+    if sid.get().is_none() {
+        viol.push(("stream_rejected".into(), "".into(), reply));
+    }
     if !s.gate {
         // consumer late: let the pipeline finish first (T inf returns when the channel is disconnected; it must not
         // receive before that, so the budgets are applied afterwards on the queued messages)
@@ -110,19 +136,26 @@ fn run(d: &mut Driver, file: &str, s: &Scen) -> Result<(View, Vec<(String, Strin
     step(d, "T 0", &mut view, &mut viol)?;
     step(d, "T 0", &mut view, &mut viol)?;
     step(d, "C close", &mut view, &mut viol)?;
-    Ok((view, viol))
+    let sg = sgot.borrow().clone();
+    Ok(((view, sg), viol))
 }
 
-fn judge(ctx: &mut Ctx, s: &Scen, r: Result<(View, Vec<(String, String, String)>), DriverErr>, counts: &BTreeMap<String, u32>, reference: &mut BTreeMap<bool, View>) {
+fn judge(ctx: &mut Ctx, s: &Scen, r: Result<(Seen, Vec<(String, String, String)>), DriverErr>, counts: &BTreeMap<String, u32>, ecu2_idx: &[u64], reference: &mut BTreeMap<bool, View>) {
     let cj = || scen_json(s);
     ctx.landmark(if s.gate { "consumer_early" } else { "consumer_late" });
     ctx.eval(true);
     ctx.sample(cj);
     match r {
         Err(e) => ctx.violation(if format!("{e:?}").contains("Hang") { "hang" } else { "driver_died" }, "", cj, format!("{e:?}")),
-        Ok((view, viol)) => {
+        Ok(((view, sgot), viol)) => {
             for (c, d, detail) in viol {
                 ctx.violation(&c, &d, cj, detail);
+            }
+            // the filtered stream delivered positions [1,3) of the ECU2 messages, whatever the pacing
+            let want: Vec<u64> = ecu2_idx.iter().copied().skip(1).take(2).collect();
+            if sgot != want {
+                ctx.violation("client_stream_differs", if s.gate { "consumer_early" } else { "consumer_late" }, cj, format!("the stream with window [1,3) of the ECU2 messages delivered the messages with index {:?}, expected {:?}", sgot, want));
+                return;
             }
             // the client's table lists every message
             let mut per_ecu: BTreeMap<String, u64> = BTreeMap::new();
@@ -153,7 +186,7 @@ impl Prop for C13r {
         Meta {
             id: "C13",
             level: "model_checking",
-            rule: "remote consumer half of C13: the real consumer of `adlt remote` (process_file_context, stepped through the cfg(adlt_verif) driver with explicit receive budgets) against the real pipeline (parser -> lifecycle stage -> [time sort]) on a 23-message file (a confirmed lifecycle that keeps growing + a lifecycle still buffered at the end). The lifecycle stage is held at a gate right before its final publication (hook lifecycle::verif_gate), which makes the two extreme pacings deterministic: 'consumer late' (pipeline finished before the first poll) and 'consumer early' (every message received, one idle poll, only then the final publication), 'consumer late' x {unsorted, sorted} and 'consumer early' x unsorted (the time sort holds its last window back until its input ends), each x every split of the receive budget into 1..2 polls (thorough: 1..3). Oracle: the lifecycle table the client has been sent (latest info per id) lists every message of the file and is the same for both pacings; every step answers, no panic.".into(),
+            rule: "remote consumer half of C13: the real consumer of `adlt remote` (process_file_context, stepped through the cfg(adlt_verif) driver with explicit receive budgets) against the real pipeline (parser -> lifecycle stage -> [time sort]) on a 23-message file (a confirmed lifecycle that keeps growing + a lifecycle still buffered at the end). The lifecycle stage is held at a gate right before its final publication (hook lifecycle::verif_gate), which makes the two extreme pacings deterministic: 'consumer late' (pipeline finished before the first poll) and 'consumer early' (every message received, one idle poll, only then the final publication), 'consumer late' x {unsorted, sorted} and 'consumer early' x unsorted (the time sort holds its last window back until its input ends), each x every split of the receive budget into 1..2 polls (thorough: 1..3). A filtered stream (ECU2 messages, window [1,3)) is open during the run. Oracle: the lifecycle table the client has been sent (latest info per id) lists every message of the file and is the same for both pacings; the stream delivers exactly the 2nd and 3rd ECU2 message for every pacing and budget split; every step answers, no panic.".into(),
             assumptions: vec!["the gate hook sits between the flush of the buffered messages and the final forced refresh of parse_lifecycles_buffered_from_stream (add-only, cfg adlt_verif)".into(), "pacings between the two extremes are covered by the scheduler engine on the library stages, not on the binary's consumer".into()],
             budget_s: (120, 600),
             workers: 1,
@@ -166,7 +199,7 @@ impl Prop for C13r {
     fn run(&self, ctx: &mut Ctx) {
         let dir = scratch_dir();
         let file = format!("{dir}/log23.dlt");
-        let (bytes, counts) = gen_log();
+        let (bytes, counts, ecu2_idx) = gen_log();
         std::fs::write(&file, bytes).expect("write log");
         let n: usize = counts.values().map(|x| *x as usize).sum();
         let mut budgets: Vec<Vec<usize>> = vec![vec![n]];
@@ -200,7 +233,7 @@ impl Prop for C13r {
                         d = Driver::spawn();
                     }
                     ctx.transitions(b.len() as u64 + 6);
-                    judge(ctx, &s, r, &counts, &mut reference);
+                    judge(ctx, &s, r, &counts, &ecu2_idx, &mut reference);
                     if ctx.out_of_time() {
                         done = false;
                         break 'o;
@@ -219,7 +252,7 @@ impl Prop for C13r {
         }
         let dir = scratch_dir();
         let file = format!("{dir}/log23.dlt");
-        let (bytes, counts) = gen_log();
+        let (bytes, counts, ecu2_idx) = gen_log();
         std::fs::write(&file, bytes).expect("write log");
         let s = Scen {
             gate: case["consumer_early(gate)"].as_bool().unwrap_or(true),
@@ -229,7 +262,7 @@ impl Prop for C13r {
         let mut d = Driver::spawn();
         let mut reference: BTreeMap<bool, View> = BTreeMap::new();
         let r = run(&mut d, &file, &s);
-        judge(ctx, &s, r, &counts, &mut reference);
+        judge(ctx, &s, r, &counts, &ecu2_idx, &mut reference);
         d.kill();
         let _ = std::fs::remove_dir_all(&dir);
     }
